@@ -248,7 +248,7 @@ func (w *kqueue) Close() error {
 
 	pathsToRemove := w.watches.listPaths(false)
 	for _, name := range pathsToRemove {
-		w.Remove(name)
+		w.remove(name, true)
 	}
 
 	unix.Close(w.closepipe[1]) // Send "quit" message to readEvents
@@ -281,14 +281,13 @@ func (w *kqueue) Remove(name string) error {
 		fmt.Fprintf(os.Stderr, "FSNOTIFY_DEBUG: %s  Remove(%q)\n",
 			time.Now().Format("15:04:05.000000000"), name)
 	}
+	if w.isClosed() {
+		return nil
+	}
 	return w.remove(name, true)
 }
 
 func (w *kqueue) remove(name string, unwatchFiles bool) error {
-	if w.isClosed() {
-		return nil
-	}
-
 	name = filepath.Clean(name)
 	info, ok := w.watches.byPath(name)
 	if !ok {
@@ -311,7 +310,7 @@ func (w *kqueue) remove(name string, unwatchFiles bool) error {
 			// Since these are internal, not much sense in propagating error to
 			// the user, as that will just confuse them with an error about a
 			// path they did not explicitly watch themselves.
-			w.Remove(name)
+			w.remove(name, true)
 		}
 	}
 	return nil
